@@ -16,6 +16,7 @@ import (
 	"os"
 	"path/filepath"
 	"sort"
+	"time"
 
 	"github.com/pgavlin/dawn/pickle"
 	"go.starlark.net/starlark"
@@ -171,7 +172,19 @@ func (r *chunkReader) Read(p []byte) (int, error) {
 }
 
 // decodeOutcome hands bytes to the real decoder (with dawn's unpickler) and classifies.
-func decodeOutcome(data []byte, chunk int) (v *simcheck.Violation) {
+func decodeOutcome(data []byte, chunk int) *simcheck.Violation {
+	done := make(chan *simcheck.Violation, 1)
+	go func() { done <- decodeOutcome1(data, chunk) }()
+	select {
+	case v := <-done:
+		return v
+	case <-time.After(15 * time.Second):
+		// a few kilobytes decode in microseconds; fifteen seconds of CPU means the decoder spins
+		return &simcheck.Violation{Class: "decode-hang", Msg: fmt.Sprintf("decoding %d bytes did not return within 15 s (input %x...)", len(data), data[:min(len(data), 48)]), Fatal: true}
+	}
+}
+
+func decodeOutcome1(data []byte, chunk int) (v *simcheck.Violation) {
 	defer func() {
 		if r := recover(); r != nil {
 			v = simcheck.V("decode-panic", "decoding %d bytes panicked: %v (input %x...)", len(data), r, data[:min(len(data), 48)])
@@ -186,13 +199,69 @@ func decodeOutcome(data []byte, chunk int) (v *simcheck.Violation) {
 		return simcheck.V("decode-nothing", "decoding returned no value and no error (input %d bytes: %x...)", len(data), data[:min(len(data), 64)])
 	}
 	if err == nil {
-		// a well-formed value can be printed and frozen
-		_ = val.Type()
-		if _, ok := val.(starlark.Value); !ok {
-			return simcheck.V("decode-malformed", "decoded value is not a starlark value")
+		// a well-formed value can be traversed: printing it visits every element, and a Go nil
+		// smuggled into a container makes that panic
+		if bad := wellFormed(val, map[starlark.Value]bool{}); bad != "" {
+			return simcheck.V("decode-malformed", "decoding returned a malformed value without an error: %s (input %d bytes: %x...)", bad, len(data), data[:min(len(data), 64)])
 		}
 	}
 	return nil
+}
+
+// wellFormed walks a decoded value and reports a nil element or a value that cannot be printed.
+func wellFormed(v starlark.Value, seen map[starlark.Value]bool) (bad string) {
+	if v == nil {
+		return "a nil element"
+	}
+	defer func() {
+		if r := recover(); r != nil {
+			bad = fmt.Sprintf("traversing it panics: %v", r)
+		}
+	}()
+	switch x := v.(type) {
+	case starlark.Tuple:
+		for _, e := range x {
+			if b := wellFormed(e, seen); b != "" {
+				return b
+			}
+		}
+	case *starlark.List:
+		if seen[x] {
+			return ""
+		}
+		seen[x] = true // decoded values may be shared or self-referential
+		for i := 0; i < x.Len(); i++ {
+			if b := wellFormed(x.Index(i), seen); b != "" {
+				return b
+			}
+		}
+	case *starlark.Dict:
+		if seen[x] {
+			return ""
+		}
+		seen[x] = true
+		for _, kv := range x.Items() {
+			if b := wellFormed(kv[0], seen); b != "" {
+				return b
+			}
+			if b := wellFormed(kv[1], seen); b != "" {
+				return b
+			}
+		}
+	case *starlark.Set:
+		if seen[x] {
+			return ""
+		}
+		seen[x] = true
+		for _, e := range x.Elems() {
+			if b := wellFormed(e, seen); b != "" {
+				return b
+			}
+		}
+	default:
+		_ = v.Type()
+	}
+	return ""
 }
 
 func c15Exec(scAny any, c *simcheck.Ctx) *simcheck.Violation {
@@ -279,6 +348,23 @@ func c15Exec(scAny any, c *simcheck.Ctx) *simcheck.Violation {
 			for _, ch := range []int{0, 1, 3} {
 				if v := try(raw, ch, "short_reads"); v != nil {
 					return v
+				}
+			}
+			// every byte value at every offset (thorough), a stride of offsets (quick)
+			stride := 1
+			if c.Tier != "thorough" && len(raw) > 96 {
+				stride = len(raw)/96 + 1
+			}
+			for off := c.Tapes.Get("substride").Intn(stride); off < len(raw); off += stride {
+				sub := append([]byte{}, raw...)
+				for b := 0; b < 256; b++ {
+					if byte(b) == raw[off] {
+						continue
+					}
+					sub[off] = byte(b)
+					if v := try(append([]byte{}, sub...), 0, "stream_byte_substitution"); v != nil {
+						return v
+					}
 				}
 			}
 			for off := 0; off < len(raw); off++ {
@@ -380,7 +466,14 @@ func c15Exec(scAny any, c *simcheck.Ctx) *simcheck.Violation {
 			}
 			op := *final
 			op.Index = preferIndex
-			res := h.build(last, &op, h.pc, nil)
+			pc := h.pc
+			pc.WatchdogS = 25
+			res := h.build(last, &op, pc, nil)
+			if res.Sim.Stuck {
+				v := narrow(simcheck.V("corrupt-record-hang", "%s: loading and building did not finish within 25 s of real time (the uncorrupted project takes milliseconds)", what), idx)
+				v.Fatal = true
+				return v
+			}
 			if v := procFailure(res); v != nil {
 				if v.Class == simcheck.EngineError {
 					return v
